@@ -373,10 +373,18 @@ def replay(modname: str, path: str) -> int:
     mod = _load(modname)
     j = json.load(open(path))
     r = run_case(mod, j["case"])
-    if r.fails:
-        for f in r.fails:
-            print(f"STILL FAILS clause={f.clause} {f.detail}")
-            print(f"  expected={f.expected}\n  observed={f.observed}")
+    # failures that the committed known-findings file lists are reported as such and do not fail the replay
+    findings = load_findings(j.get("property") or getattr(mod, "ID", ""))
+    bad = 0
+    for f in r.fails:
+        kf = match_finding(findings, mod, j["case"], f.to_json())
+        if kf is not None:
+            print(f"KNOWN-FINDING: property={kf['property']} {kf['id']} (clause={f.clause})")
+            continue
+        bad += 1
+        print(f"STILL FAILS clause={f.clause} {f.detail}")
+        print(f"  expected={f.expected}\n  observed={f.observed}")
+    if bad:
         return 1
     print("replay passes (no failure on this tree)")
     return 0
